@@ -10,7 +10,7 @@ CONSTANTS
   EncChoices = {FALSE, TRUE}
   ByValueMax = 2
   AllowConflicts = FALSE
-  Features = {"apps", "storage", "detached", "lastresort"}
+  Features = {"apps", "storage", "detached", "lastresort", "newid"}
   Window = 1024
   Retention = 3
   BurstSizes = {1, 2}
